@@ -27,6 +27,15 @@ CHECKS = {
               "with the extracted model over all columns of lines around every regime boundary (thorough: every length 0..600 x every column)."),
         note="Byte-level statements (as the code is); visual width of multi-byte runes not claimed; lines below bufio.Scanner's 64 KiB limit; theorem (2) for 1 <= col <= len.",
         technique="Coq proof (linear arithmetic over the slicing model) + exhaustive-by-column message correspondence"),
+    "C18": dict(
+        text=("Theorems (Coq, every command line, every environment with GOGREEMENT_ENV_ONLY unset): resolve = for each option the flag if given, else the variable if set "
+              "(even to the empty string), else the default — including the round trip of list values through the flag default string (parse_list (join (parse_list s)) = parse_list s, "
+              "proved for all strings); parse_list = split on commas, trim, drop empties, upper-case iff check list; the boolean variable is true exactly for lower(trim s) in "
+              "{1,t,true,yes,on}; no environment value makes resolution fail. Names, defaults and upper-casing switches are extracted from config.go on every run and must equal the "
+              "documented ones. Tied to the code by the in-process public API over the full flag x env grid (+ random combinations, fuzzed bytes) and by runs of the real binary in a "
+              "fresh process on a probe module whose planted violations reveal each option."),
+        note="ASCII values (Go trims/cases by Unicode; non-ASCII inputs are exercised but outside the theorem). strconv.ParseBool and the flag package (every occurrence parsed, last wins, bare = true) are library models.",
+        technique="Coq proof (string lemmas, idempotence of list parsing) + grid correspondence in-process and through the real binary"),
 }
 
 PENDING_REASON = "check under construction in this round (designed in DESIGN.md section 5); not yet claimed"
